@@ -246,6 +246,14 @@ Theorem C19_random_indices_rejects_exactly_unsatisfiable : forall imax nrand uni
   (ri_accepts imax nrand unique = true <-> exists out, ri_ok imax nrand unique out).
 Proof. exact ri_accepts_iff_satisfiable. Qed.
 
+(* the two remaining boolean checkers decide their properties as well (soundness: C19_checkers_sound) *)
+Theorem C19_sky_checker_decides : forall n pts, sky_check n pts = true <-> sky_ok n pts.
+Proof. exact sky_check_iff. Qed.
+
+Theorem C19_cholesky_checker_decides : forall means M n flat out, (0 < length M)%nat ->
+  (chol_check means M n flat out = true <-> chol_ok means M n flat out).
+Proof. exact chol_check_iff. Qed.
+
 (* ================================================================ cumulative-method sampler: error paths *)
 
 (* which tables are rejected, with which error class (ValueError: shapes differ or empty grid;
